@@ -1,3 +1,4 @@
+(* INTERFACE STABLE *)
 (* Model of ACL filtering.
      annet/annlib/rbparser/acl.py : compile_acl_text, _compile_acl, _merge_toplevel,
                                     _PARAMS_SCHEME (defaults and uniters), _make_reverse
